@@ -176,14 +176,39 @@ def _same(real, model, failpos):
     return False
 
 
+def pool_map(func, jobs, initializer=None, initargs=(), chunksize=8, procs=None, item_timeout=600):
+    """imap_unordered with a watchdog: a worker that dies or hangs must not hang the check (it becomes an
+    infrastructure error, exit 2, never a verdict)"""
+    procs = procs or min(16, os.cpu_count() or 4)
+    ctx = mp.get_context('fork')
+    pool = ctx.Pool(procs, initializer=initializer, initargs=initargs)
+    out = []
+    chunks = [(func, jobs[i:i + chunksize]) for i in range(0, len(jobs), chunksize)]
+    try:
+        it = pool.imap_unordered(_run_chunk, chunks)
+        for _ in range(len(chunks)):
+            try:
+                out += it.next(timeout=item_timeout)
+            except mp.TimeoutError:
+                raise RuntimeError(f'worker pool made no progress for {item_timeout} s ({len(out)} of {len(jobs)} jobs done)')
+        pool.close()
+        pool.join()
+    finally:
+        pool.terminate()
+    return out
+
+
+def _run_chunk(arg):
+    func, chunk = arg
+    return [func(j) for j in chunk]
+
+
 def run_jobs(jobs, flag_bits, procs=None):
     procs = procs or min(16, os.cpu_count() or 4)
     if len(jobs) < 8:
         _init(flag_bits)
         return [_job(j) for j in jobs]
-    ctx = mp.get_context('fork')
-    with ctx.Pool(procs, initializer=_init, initargs=(flag_bits,)) as pool:
-        return list(pool.imap_unordered(_job, jobs, chunksize=16))
+    return pool_map(_job, jobs, _init, (flag_bits,), chunksize=16, procs=procs)
 
 
 # ---------------------------------------------------------------------------------------------
@@ -316,6 +341,4 @@ def run_jobs_api(jobs, flag_bits, procs=None):
     if len(jobs) < 8:
         _init(flag_bits)
         return [_job_api(j) for j in jobs]
-    ctx = mp.get_context('fork')
-    with ctx.Pool(procs, initializer=_init, initargs=(flag_bits,)) as pool:
-        return list(pool.imap_unordered(_job_api, jobs, chunksize=8))
+    return pool_map(_job_api, jobs, _init, (flag_bits,), chunksize=8, procs=procs)
